@@ -960,6 +960,13 @@ func prepareDeltaBuild(options Options, repository *git.Repository) (repos map[f
 			return nil, nil, nil, fmt.Errorf("getting current git tree for branch %q: %w", b, err)
 		}
 
+		// TODO@ggilmore: HACK - remove once ignore files are supported in delta builds.
+		// The changes below are added without consulting the ignore file, so a repository that has one
+		// (changed or not) must be left to a normal build.
+		if _, err := tree.File(ignore.IgnoreFile); !errors.Is(err, object.ErrFileNotFound) {
+			return nil, nil, nil, fmt.Errorf("%q file is not yet supported in delta builds", ignore.IgnoreFile)
+		}
+
 		branchToCurrentTree[b] = tree
 	}
 
